@@ -1,5 +1,6 @@
 import json,sys
 pid=sys.argv[1]; n=sys.argv[2]; tag=sys.argv[3]
+focus=sys.argv[4] if len(sys.argv)>4 else ''
 hints={
  'default':"an unusual input, a boundary value, a particular configuration/flag combination, a multi-step sequence of operations, or two cooperating sites that each look fine alone",
 }
@@ -9,7 +10,7 @@ for l in open('/verif/properties.jsonl'):
 wt='/tmp/wt-%s%s'%(pid,tag)
 print(f'''You are a careful C++ engineer playing the role of a "bug seeder". You work ONLY inside the git worktree {wt} (a checkout of the GeographicLib C++ library, https://geographiclib.sourceforge.io). Do not read or write anything under /verif or /repo. There is no network.
 
-A semantic property of the library is stated below. Produce {n} different, realistic code changes to the library (each as a separate patch against the unmodified worktree) that BREAK this property while the library still compiles and the library's existing test suite still passes. Each change should look like something a maintainer could plausibly introduce (an off-by-one at a boundary, a wrong sign or index in a rarely used branch, a changed constant/threshold/tolerance, a reordered check, a "simplification" or performance tweak, a swapped argument, a table entry typo, a caching/memo optimisation, an assignment moved above a validity check …), and should need something specific to manifest — {hints['default']} — not something ordinary use would expose at once. Prefer variety: touch different functions/files/branches relevant to the property; make at least one of them subtle (small numerical effect just above the documented accuracy, or only on a rarely taken code path).
+A semantic property of the library is stated below. Produce {n} different, realistic code changes to the library (each as a separate patch against the unmodified worktree) that BREAK this property while the library still compiles and the library's existing test suite still passes. Each change should look like something a maintainer could plausibly introduce (an off-by-one at a boundary, a wrong sign or index in a rarely used branch, a changed constant/threshold/tolerance, a reordered check, a "simplification" or performance tweak, a swapped argument, a table entry typo, a caching/memo optimisation, an assignment moved above a validity check …), and should need something specific to manifest — {hints['default']} — not something ordinary use would expose at once. Prefer variety: touch different functions/files/branches relevant to the property; make at least one of them subtle (small numerical effect just above the documented accuracy, or only on a rarely taken code path). {focus}
 
 PROPERTY
 --------
